@@ -147,11 +147,11 @@ def run_history_answers(hist, probe):
     T = I.Primitive.polygon([(F(-2), F(-3)), (F(9, 2), F(-1)), (F(1), F(11, 2))])
     S = env[probe]
     fresh = copy.deepcopy(S)
-    T2 = copy.deepcopy(T)
+    T2, T3 = copy.deepcopy(T), copy.deepcopy(T)       # before any battery: the operators split T in place
     # a third object built from nothing but the current coordinates (no cache can have survived)
     isfloat = any(isinstance(x, float) for j in getattr(S, "jordans", ()) for sg in j.segments for p in sg.ctrlpoints for x in (p[0], p[1]))
     rebuilt = I.mk_shape(I.shape_data(S), "float" if isfloat else "frac")
-    return _battery(S, T), _battery(fresh, T2), _battery(rebuilt, copy.deepcopy(T))
+    return _battery(S, T), _battery(fresh, T2), _battery(rebuilt, T3)
 
 
 def check(ctx, case):
